@@ -54,13 +54,13 @@ def pyexpr(src, N, user_names=()):
         return ['fn', fns[src]]
     if src.isidentifier():
         return ['var', N.nm(src)]
-    m = re.fullmatch(r'lambda v: v == (\w+)', src)
-    if m:
-        return ['fn', ['eqvar', N.nm(m.group(1))]]
-    m = re.fullmatch(r'lambda v: len\(v\) > len\((\w+)\)', src)
-    if m:
-        return ['fn', ['lengtvar', N.nm(m.group(1))]]
-    if src == 'lambda v: v % 2':
+    m = re.fullmatch(r'lambda (\w+): (\w+) == (\w+)', src)
+    if m and m.group(1) == m.group(2) and m.group(3) != m.group(1):
+        return ['fn', ['eqvar', N.nm(m.group(3))]]
+    m = re.fullmatch(r'lambda (\w+): len\((\w+)\) > len\((\w+)\)', src)
+    if m and m.group(1) == m.group(2) and m.group(3) != m.group(1):
+        return ['fn', ['lengtvar', N.nm(m.group(3))]]
+    if re.fullmatch(r'lambda (\w+): \1 % 2', src):
         return ['fn', 'odd']
     m = re.fullmatch(r'lambda _: len\((\w+)\) == (\w+)', src)
     if m:
@@ -110,7 +110,10 @@ KNOWN_ATTRS = {
 
 
 class Exporter:
-    def __init__(self, rules):
+    def __init__(self, rules, lenient=False):
+        # lenient: unknown attributes are tolerated.  Used ONLY to search for a failing input after the strict export
+        # has failed (the tie is reported as broken in any case).
+        self.lenient = lenient
         self.N = Names()
         self.rules = rules
         self.rule_index = {r.name: i for i, r in enumerate(rules)}
@@ -144,7 +147,7 @@ class Exporter:
         if known is None:
             raise ExportError(f'unknown expression class {n}')
         extra = set(vars(e)) - known
-        if extra:
+        if extra and not self.lenient:
             raise ExportError(f'{n} has unknown attributes {sorted(extra)}')
         return n
 
